@@ -527,12 +527,24 @@ func indexOfKey(keys []*vfKeyed, k *vfKeyed) int {
 // vfC03Publishes: what the node publishes itself verifies at a correct receiver.
 func vfC03Publishes(r *vfRun) {
 	keys := vfC03KeySet()
-	for _, policy := range []MessageSignaturePolicy{StrictSign, LaxSign} {
+	type pm struct {
+		policy MessageSignaturePolicy
+		anon   bool
+	}
+	// (a node that does not sign can still be handed a key per publication, and then produces a signed message:
+	// under a strict no-signing policy its own receivers would refuse that, so the publication has to be refused)
+	for _, pa := range []pm{{StrictSign, false}, {LaxSign, false}, {StrictNoSign, false}, {StrictNoSign, true}, {LaxNoSign, false}, {LaxNoSign, true}} {
 		for _, mode := range []string{"default", "custom-ed25519", "custom-rsa", "perpublish-secp256k1", "perpublish-ecdsa"} {
-			policy, mode := policy, mode
+			policy, anon, mode := pa.policy, pa.anon, mode
+			if anon && strings.HasPrefix(mode, "custom-") {
+				continue // WithNoAuthor and WithMessageAuthor exclude each other
+			}
 			p := vfBubble(r.t, func() {
 				w := newVfWorld()
 				opts := []Option{WithMessageSignaturePolicy(policy)}
+				if anon {
+					opts = append(opts, WithNoAuthor())
+				}
 				var custom *vfKeyed
 				if strings.HasPrefix(mode, "custom-") {
 					for _, k := range keys {
@@ -564,28 +576,63 @@ func vfC03Publishes(r *vfRun) {
 						}
 					}
 				}
-				if err := tp.Publish(context.Background(), []byte("hello"), popts...); err != nil {
-					r.violation("c03:publish-error", fmt.Sprintf("policy=%d mode=%s: Publish failed: %v", policy, mode, err), map[string]any{"policy": policy, "mode": mode})
+				sub, err := tp.Subscribe()
+				if err != nil {
+					panic(err)
 				}
 				synctest.Wait()
+				f.take()
+				cs := map[string]any{"policy": policy, "anonymous": anon, "mode": mode}
+				pubErr := tp.Publish(context.Background(), []byte("hello"), popts...)
+				if pubErr != nil && policy&msgSigning != 0 {
+					r.violation("c03:publish-error", fmt.Sprintf("policy=%d mode=%s: Publish failed: %v", policy, mode, pubErr), cs)
+				}
+				synctest.Wait()
+				// the receivers' rule: a signing publisher is judged by a strict-signing receiver, a non-signing one by
+				// a receiver of its own policy and author mode
+				rpol, ranon := StrictSign, false
+				if policy&msgSigning == 0 {
+					rpol, ranon = policy, anon
+				}
 				got := 0
+				judge := func(m *pb.Message, where string) {
+					if ok, why := vfOracleAccepts(m, rpol, ranon, f.ident.id); !ok {
+						r.violation("c03:own-message-does-not-verify", fmt.Sprintf("policy=%d anonymous=%v mode=%s: the node's own publication (%s) does not verify at a correct receiver of policy %d: %s", policy, anon, mode, where, rpol, why), cs)
+					}
+				}
 				for _, rc := range f.take() {
 					for _, m := range rc.rpc.GetPublish() {
 						got++
-						if ok, why := vfOracleAccepts(m, StrictSign, false, f.ident.id); !ok {
-							r.violation("c03:own-message-does-not-verify", fmt.Sprintf("policy=%d mode=%s: the node's own publication does not verify at a strict receiver: %s", policy, mode, why), map[string]any{"policy": policy, "mode": mode})
-						}
+						judge(m, "on the wire")
 					}
 				}
-				if got != 1 {
-					r.violation("c03:own-message-missing", fmt.Sprintf("policy=%d mode=%s: expected one publication on the wire, saw %d", policy, mode, got), map[string]any{"policy": policy, "mode": mode})
+				local := 0
+				for {
+					select {
+					case m := <-sub.ch:
+						local++
+						judge(m.Message, "delivered locally")
+						continue
+					default:
+					}
+					break
+				}
+				want := 1
+				if pubErr != nil {
+					want = 0 // refused publications leave no trace on the wire or at the subscription
+				}
+				if got != want || local != want {
+					r.violation("c03:own-message-missing", fmt.Sprintf("policy=%d anonymous=%v mode=%s: Publish returned %v; expected %d publication(s) on the wire and at the local subscription, saw %d and %d", policy, anon, mode, pubErr, want, got, local), cs)
+				}
+				if pubErr != nil {
+					r.count("own_publications_refused", 1)
 				}
 				r.res.Executions++
 				r.count("own_publications_verified", 1)
 				vfTeardown(w, n)
 			})
 			if p != "" {
-				r.violation("panic:"+vfPanicFingerprint(p), "panic: "+vfFirstLine(p), map[string]any{"policy": policy, "mode": mode})
+				r.violation("panic:"+vfPanicFingerprint(p), "panic: "+vfFirstLine(p), map[string]any{"policy": policy, "anonymous": anon, "mode": mode})
 			}
 		}
 	}
